@@ -86,7 +86,7 @@ class Oracle(object):
     def containing(self, P):
         """P: (m,2) local coordinates -> list of arrays of column indices containing each point"""
         out = []
-        m = max(1, int(2.e6 // len(self.x1)))
+        m = max(1, int(4.e5 // len(self.x1)))
         for s in range(0, len(P), m):
             ang = self._winding(P[s:s + m])
             w = np.add.reduceat(ang, self.starts, axis=1)
@@ -99,7 +99,7 @@ class Oracle(object):
         esel = np.concatenate([np.arange(self.starts[c], self.starts[c] + len(self.polys[c])) for c in cols])
         st = np.cumsum([0] + [len(self.polys[c]) for c in cols])[:-1]
         res = []
-        m = max(1, int(2.e6 // len(esel)))
+        m = max(1, int(4.e5 // len(esel)))
         for s in range(0, len(P), m):
             ang = self._winding(P[s:s + m], esel)
             res.append(np.abs(np.add.reduceat(ang, st, axis=1)) > math.pi)
@@ -110,7 +110,7 @@ class Oracle(object):
         out = np.empty(len(P))
         sx, sy = self.x2 - self.x1, self.y2 - self.y1
         s2 = sx * sx + sy * sy
-        m = max(1, int(2.e6 // len(self.x1)))
+        m = max(1, int(4.e5 // len(self.x1)))
         for s in range(0, len(P), m):
             px, py = P[s:s + m, 0, None] - self.x1[None, :], P[s:s + m, 1, None] - self.y1[None, :]
             t = np.clip((px * sx + py * sy) / s2, 0., 1.)
@@ -468,7 +468,10 @@ def line_contracts(geo, O, R, rs, nlines, ndense):
         clen = dict((ci, sum(t1 - t0 for t0, t1 in iv) * L) for ci, iv in clip.items())
         inside_len = sum(clen.values())
         thr = dict((int(ci), 1.e-3 * O.maxside[ci]) for ci in set(clip) | set(int(c) for c in cand))
-        R.distinct.add((R.tag, 'line', lk, min(len(clip), 5), inside_len < L - ptol))
+        # a non-convex column entered twice cannot be represented by one (column, entry, exit) item: such lines get their
+        # own failure categories
+        rv = '-revisited-column' if any(len(iv) > 1 for iv in clip.values()) else ''
+        R.distinct.add((R.tag, 'line', lk, min(len(clip), 5), inside_len < L - ptol, rv))
         R.evals['track_shape'] += 1
         try:
             track = geo.column_track([A.copy(), B.copy()])
@@ -517,19 +520,19 @@ def line_contracts(geo, O, R, rs, nlines, ndense):
         R.evals['track_order'] += 1
         bad = [j for j in range(len(track)) if exts[j][0] < ents[j][0] - ptol or (j > 0 and ents[j][0] < ents[j - 1][0] - ptol)]
         if bad:
-            R.fail('track-order', item, 'entries not ordered along the line at index %d: entry distances %r' % (bad[0], [round(e[0], 6) for e in ents][:12]), inp)
+            R.fail('track-order' + rv, item, 'entries not ordered along the line at index %d: entry distances %r' % (bad[0], [round(e[0], 6) for e in ents][:12]), inp)
         # consecutive segments abut (a gap is legitimate only over dropped short clips / stretches outside the domain)
         keep = [(t0 * L, t1 * L) for ci, iv in clip.items() if clen[ci] > 1.05 * thr[ci] + 2 * ptol for t0, t1 in iv]
         for j in range(1, len(track)):
             R.evals['track_abut'] += 1
             g0, g1 = exts[j - 1][0], ents[j][0]
             if g1 - g0 < -ptol:
-                R.fail('track-overlap', item + ' columns %r/%r' % (names[j - 1], names[j]), 'segment of %r ends at %.9g, that of %r starts at %.9g: overlap of %.3g' %
+                R.fail('track-overlap' + rv, item + ' columns %r/%r' % (names[j - 1], names[j]), 'segment of %r ends at %.9g, that of %r starts at %.9g: overlap of %.3g' %
                        (names[j - 1], g0, names[j], g1, g0 - g1), inp)
             elif g1 - g0 > ptol:
                 covered = sum(max(0., min(g1, b1) - max(g0, b0)) for b0, b1 in keep)
                 if covered > 2 * ptol:
-                    R.fail('track-gap', item + ' columns %r/%r' % (names[j - 1], names[j]), 'gap of %.6g between the segments of %r and %r, of which %.6g lies in columns that may not be dropped' %
+                    R.fail('track-gap' + rv, item + ' columns %r/%r' % (names[j - 1], names[j]), 'gap of %.6g between the segments of %r and %r, of which %.6g lies in columns that may not be dropped' %
                            (g1 - g0, names[j - 1], names[j], covered), inp)
         # lengths add up to the length inside the domain, up to the dropped clips
         R.evals['track_length_sum'] += 1
@@ -537,7 +540,7 @@ def line_contracts(geo, O, R, rs, nlines, ndense):
         droppable = sum(clen[ci] for ci in clip if clen[ci] <= 1.05 * thr[ci] + 2 * ptol)
         slack = (len(clip) + 2) * ptol
         if not (inside_len - droppable - slack <= total <= inside_len + slack):
-            R.fail('track-length-sum', item, 'segment lengths add up to %.9g; length of the line inside the domain is %.9g (of which at most %.3g in droppable corner clips)' %
+            R.fail('track-length-sum' + rv, item, 'segment lengths add up to %.9g; length of the line inside the domain is %.9g (of which at most %.3g in droppable corner clips)' %
                    (total, inside_len, droppable), dict(inp, observed=total, expected=inside_len))
         # dense sampling along the line: every column hit over more than the threshold must be listed (DESIGN oracle)
         if ndense and len(cand):
@@ -609,9 +612,9 @@ def main():
     quick = tier == 'quick'
     specs = []          # (spec, total points, total lines, chunk size in points)
     # shipped geometries: (points, lines, chunk) per tier
-    plan = {1: (200, 40, 50, 3200, 400, 200), 2: (60, 10, 15, 1600, 100, 50), 3: (160, 30, 40, 3000, 320, 150),
-            4: (45, 8, 15, 1300, 80, 40), 5: (200, 40, 50, 3200, 400, 200), 6: (200, 40, 50, 3200, 400, 200),
-            7: (300, 60, 100, 4000, 500, 250)}
+    plan = {1: (200, 40, 50, 2400, 300, 150), 2: (60, 10, 15, 1200, 80, 40), 3: (160, 30, 40, 2200, 240, 110),
+            4: (45, 8, 15, 1000, 60, 40), 5: (200, 40, 50, 2400, 300, 150), 6: (200, 40, 50, 2400, 300, 150),
+            7: (300, 60, 100, 3000, 400, 200)}
     for gi in range(1, 8):
         qp, ql, qc, tp, tl, tc = plan[gi]
         specs.append(({'kind': 'file', 'file': 'g%d.dat' % gi, 'fix': gi == 3, 'seed': rnd.randrange(1 << 30)}, qp if quick else tp, ql if quick else tl, qc if quick else tc))
@@ -629,7 +632,7 @@ def main():
         sp.update(extra)
         big = gi in (2, 4)
         if quick: specs.append((sp, 30 if big else 60, 6 if big else 15, 15 if big else 30))
-        else: specs.append((sp, 400 if big else 1000, 30 if big else 130, 40 if big else 125))
+        else: specs.append((sp, 300 if big else 750, 24 if big else 100, 30 if big else 125))
     # rectangular, column sizes over three decades
     for j in range(10 if quick else 60):
         nx, ny = rnd.randint(2, 12), rnd.randint(1, 10)
@@ -637,7 +640,7 @@ def main():
               'origin': rnd.choice([[0., 0., 0.], [round(rnd.uniform(-1e4, 1e4), 1), round(rnd.uniform(-1e4, 1e4), 1), round(rnd.uniform(-500, 1500), 1)], [2765984.77, 6261546.23, 880.]]),
               'convention': rnd.randint(0, 3), 'atmos_type': rnd.randint(0, 2), 'surfaces': rnd.random() < 0.7,
               'rotate': rnd.choice([None, None, 45., round(rnd.uniform(-180, 180), 2)]), 'seed': rnd.randrange(1 << 30)}
-        specs.append((sp, 50 if quick else 160, 20 if quick else 60, 50 if quick else 80))
+        specs.append((sp, 50 if quick else 120, 20 if quick else 50, 50 if quick else 60))
     tasks = []
     for sp, npts, nlines, chunk in specs:
         nchunks = max(1, (npts + chunk - 1) // chunk)
